@@ -234,10 +234,10 @@ func runFamily(c *vh.Ctx, fam *family) {
 		populateAll(c, src, which, 0)
 		flavorCase(c, fam, vs, treeOf(src), which)
 	}
-	per := c.N(4, 300)
+	per := c.N(4, 60)
 	big := open.mt.Descriptor().Fields().Len() > 40
 	if big {
-		per = c.N(12, 1500)
+		per = c.N(12, 300)
 	}
 	for it := 0; it < per && !c.Failed(); it++ {
 		stream := "random"
